@@ -184,17 +184,23 @@ func (lp *logProcessor[INPUT, OUTPUT]) forgeLog(
 	return log, output, false, nil
 }
 
+// maxDeadlockRetries bounds the retries of an operation chosen as deadlock victim. Inside an enclosing
+// transaction (atomic bulk) only the operation's own savepoint is rolled back: the locks of the earlier
+// elements stay, so two bulks waiting for each other deadlock again on every retry, for ever.
+const maxDeadlockRetries = 10
+
 func (lp *logProcessor[INPUT, OUTPUT]) forgeLogRetry(
 	ctx context.Context,
 	store Store,
 	parameters Parameters[INPUT],
 	fn func(ctx context.Context, store Store, schema *ledger.Schema, parameters Parameters[INPUT]) (*OUTPUT, error),
 ) (*ledger.Log, *OUTPUT, bool, error) {
-	for {
+	for deadlocks := 0; ; {
 		log, output, err := lp.runTx(ctx, store, parameters, fn)
 		if err != nil {
 			switch {
-			case errors.Is(err, postgres.ErrDeadlockDetected):
+			case errors.Is(err, postgres.ErrDeadlockDetected) && deadlocks < maxDeadlockRetries:
+				deadlocks++
 				trace.SpanFromContext(ctx).SetAttributes(attribute.Bool("deadlock", true))
 				logging.FromContext(ctx).Info("deadlock detected, retrying...")
 				lp.deadLockCounter.Add(ctx, 1, metric.WithAttributes(
